@@ -111,6 +111,9 @@ def run(sid, props, tier="quick"):
     sh("git -C %s " % REPO + "worktree add --detach %s HEAD" % wt)
     rc, out = sh("git apply %s" % os.path.join(sdir, "patch.diff"), cwd=wt)
     if rc != 0:
+        # /repo has moved since the seed was filed (fix: commits): a three-way apply rebases the hunks that merely shifted
+        rc, out = sh("git apply --3way %s && git reset -q" % os.path.join(sdir, "patch.diff"), cwd=wt)
+    if rc != 0:
         print("patch does not apply any more:", out)
         cleanup(d)
         return
